@@ -79,6 +79,19 @@ class Calls(object):
             if c is not None:
                 return self.contracted(ev, c, None, node, st)
             if nm in st.env or nm in ev.bound:
+                fv = ev.bound.get(nm) or st.env[nm]
+                ft = fv.t.inner if isinstance(fv.t, TOpt) else fv.t
+                if isinstance(ft, TObj):
+                    # call of a callable VALUE: opaque, deterministic in (callable, arguments); may not raise (assumed)
+                    if isinstance(fv.t, TOpt):
+                        ev.fork_exc(st, z3.Not(fv.t.is_none(cx, fv.e)), "TypeError", self.fx.where(node))
+                        fe = fv.t.get(cx, fv.e)
+                    else:
+                        fe = fv.e
+                    args = [ev.ev(a, st) for a in node.args]
+                    args = [ev.coerce(a, TObj(), "argument") if not isinstance(a.t, TNone) else SV(cx.func("obj_none", cx.Obj)(), TObj()) for a in args]
+                    f = cx.func("call_obj_%d" % len(args), *([cx.Obj] * (len(args) + 2)))
+                    return SV(f(fe, *[a.e for a in args]), TObj())
                 raise Outside("call of local callable %s" % nm)
             raise Outside("call of unknown function %s" % nm)
         if isinstance(f, ast.Attribute):
@@ -242,6 +255,20 @@ class Calls(object):
         kt = self.fx.parse_type(node.args[0].value)
         d = ev.ev(node.args[1], st)
         return SV(z3.K(kt.sort(self.cx), d.e), TMap(kt, d.t))
+
+    def spec_call(self, ev, node, st):
+        """call(f, args...) : the value a callable VALUE returns (same opaque function the code translation uses)"""
+        cx = self.cx
+        vals = self._args(ev, node, st)
+        fv, args = vals[0], vals[1:]
+        fe = fv.t.get(cx, fv.e) if isinstance(fv.t, TOpt) else fv.e
+        args = [ev.coerce(a, TObj(), "argument") if not isinstance(a.t, TNone) else SV(cx.func("obj_none", cx.Obj)(), TObj()) for a in args]
+        f = cx.func("call_obj_%d" % len(args), *([cx.Obj] * (len(args) + 2)))
+        return SV(f(fe, *[a.e for a in args]), TObj())
+
+    def spec_truthy(self, ev, node, st):
+        (a,) = self._args(ev, node, st)
+        return SV(ev.truthy(a), TBool())
 
     def spec_b2i(self, ev, node, st):
         (a,) = self._args(ev, node, st)
@@ -552,11 +579,16 @@ class Calls(object):
         for kw in node.keywords:
             if kw.arg is None:
                 if c.get("kwargs_opaque"):
+                    env["kwargs_"] = ev.ev(kw.value, st)
                     continue
                 raise Outside("**kwargs at call site")
             env[kw.arg] = ev.ev(kw.value, st)
         cmod = c["module"]
         tparse = lambda s: parse_type(s, cmod.aliases)  # noqa
+        if c.get("kwargs_opaque"):
+            c["types"].setdefault("kwargs_", "Obj")
+            if "kwargs_" not in env:
+                env["kwargs_"] = SV(cx.func("obj_none", cx.Obj)(), TObj())
         for p in params:
             if p not in env:
                 d = c.get("defaults", {}).get(p)
